@@ -81,12 +81,12 @@ Proof.
   destruct d.
   - destruct (tick_obs_ok cfg s t deliver bgs arrive s' ob HS Hwf H) as [_ [_ Hob]].
     cbn. apply flat_map_nil. intros x Hx. eapply Forall_forall in Hob; [|exact Hx].
-    destruct Hob as [id [out [next [-> Ho]]]]. eapply c01_inst_ok; [exact (proj1 HS)|exact Ho].
+    destruct Hob as [id [out [next [-> Ho]]]]. eapply c01_inst_ok; [exact (SInv_uniq _ HS)|exact Ho].
   - destruct (exec_obs cfg s batch s' ob HS H) as [txns [Ht [[rss [Ee ->]]|[Ee [Hdb ->]]]]]; cbn; rewrite app_nil_r.
     + assert (Hacc : Forall (fun x => sub_accepts (fst x)) txns).
       { eapply Forall_impl; [|exact Ht]. intros x [t [_ [Hx _]]]. eapply sub_at_accepts; exact Hx. }
-      destruct (exec_batch_spec _ _ _ _ (proj1 HS) Hacc Ee) as [L [U' _]]. apply c01_exec_ok; assumption.
-    + apply c01_exec_ok; [exact (proj1 HS)|apply prom_le_refl].
+      destruct (exec_batch_spec _ _ _ _ (SInv_uniq _ HS) (SInv_tstates _ HS) Hacc Ee) as [L [U' _]]. apply c01_exec_ok; assumption.
+    + apply c01_exec_ok; [exact (SInv_uniq _ HS)|apply prom_le_refl].
   - reflexivity.
   - reflexivity.
   - reflexivity.
